@@ -367,7 +367,7 @@ Definition vadd (a b : value) : res value :=
   | VInt x, VInt y => Ok (VInt (x + y))
   | VList x, VList y => Ok (VList (x ++ y))
   | VUndef, _ | _, VUndef => Err UndefinedError
-  | VStr _, _ => Err EModel
+  | VStr x, VStr y => Ok (VStr (x ++ y))        (* only the async loop gets here: sum() refuses a str start *)
   | _, _ => Err TypeError
   end.
 
@@ -383,8 +383,9 @@ Fixpoint sum_go (get : value -> res value) (rv : value) (xs : list value) : res 
               | Ok v => match vadd rv v with Err e => Err e | Ok rv' => sum_go get rv' r end
               end
   end.
+(* the builtin sum() raises TypeError for a str start ("sum() can't sum strings") at once *)
 Definition f_sum (a : attr) (start : value) (xs : list value) : res value :=
-  match start with VStr _ => Err EModel | _ => sum_go (sum_getter a) start xs end.
+  match start with VStr _ => Err TypeError | _ => sum_go (sum_getter a) start xs end.
 
 (* async do_sum:  rv = start; async for item: rv += func(item); return rv.
    [aug] says whether the accumulation is an augmented assignment on the alias of [start]
@@ -392,12 +393,9 @@ Definition f_sum (a : attr) (start : value) (xs : list value) : res value :=
    place.  Returns the result and the caller's [start] object after the call. *)
 Definition is_list (v : value) : bool := match v with VList _ => true | _ => false end.
 Definition f_sum_async (aug : bool) (a : attr) (start : value) (xs : list value) : res (value * value) :=
-  match start with
-  | VStr _ => Err EModel
-  | _ => match sum_go (sum_getter a) start xs with
-         | Err e => Err e
-         | Ok rv => Ok (rv, if aug && is_list start then rv else start)
-         end
+  match sum_go (sum_getter a) start xs with
+  | Err e => Err e
+  | Ok rv => Ok (rv, if aug && is_list start then rv else start)
   end.
 
 (* str() of the values the tie uses *)
